@@ -352,31 +352,40 @@ Theorem C16_musl_end_to_end s ph err archs : wf_spec s ->
 Proof. apply musl_end_to_end. Qed.
 Print Assumptions C16_musl_end_to_end.
 (* 21b. the same through the regular file and the real subprocess.run (the function the correspondence run executes,
-        Run/RunPlat.v: musllinux_tags_x): the four outcomes.  The two exceptions are a defect of the code (finding D41): the
-        subprocess.run call is outside the try block of _get_musl_version. *)
+        Run/RunPlat.v: musllinux_tags_x): a loader that cannot be run (embedded NUL: ValueError; missing path: FileNotFoundError)
+        means "no musl" - the code catches both since 020ba8a (they used to escape _musllinux.platform_tags, D41) *)
 Theorem C16_musl_end_to_end_real lim le s ph archs : wf_spec s -> 4194304 <= seek_max lim ->
   first_interp (s_is64 s) (s_phdrs s) = Some ph -> ph_off (s_is64 s) ph = payload_off s -> ph_size (s_is64 s) ph = flen (s_payload s) ->
   flen (s_payload s) < read_max lim ->
   let ld := strip_nul (s_payload s) in
-  (contains s_musl ld = false -> musllinux_tags_x lim (Some (encode s)) le archs = Done []) /\
-  (contains s_musl ld = true -> has_nul ld = true -> musllinux_tags_x lim (Some (encode s)) le archs = Raised ExValueError) /\
+  (contains s_musl ld = false -> musllinux_tags_x lim (Some (encode s)) le archs = []) /\
+  (contains s_musl ld = true -> has_nul ld = true -> musllinux_tags_x lim (Some (encode s)) le archs = []) /\
   (contains s_musl ld = true -> has_nul ld = false -> le_all le = false -> ~ In ld (le_existing le) ->
-     musllinux_tags_x lim (Some (encode s)) le archs = Raised ExFileNotFound) /\
+     musllinux_tags_x lim (Some (encode s)) le archs = []) /\
   (contains s_musl ld = true -> has_nul ld = false -> (le_all le = true \/ In ld (le_existing le)) ->
-     musllinux_tags_x lim (Some (encode s)) le archs = Done (map (render3 s_musllinux_) (musl_struct (parse_musl_version (le_stderr le)) archs))).
+     musllinux_tags_x lim (Some (encode s)) le archs = map (render3 s_musllinux_) (musl_struct (parse_musl_version (le_stderr le)) archs)).
 Proof. apply musl_end_to_end_x. Qed.
 Print Assumptions C16_musl_end_to_end_real.
+(* the loader cannot be run => subprocess.run raises (which exception) and _get_musl_version answers None: no tags *)
 Theorem C16_musl_loader_exceptions lim exe le archs ld : musl_loader_disk lim exe = Some ld ->
-  (has_nul ld = true -> musllinux_tags_x lim exe le archs = Raised ExValueError) /\
-  (has_nul ld = false -> le_all le = false -> ~ In ld (le_existing le) -> musllinux_tags_x lim exe le archs = Raised ExFileNotFound).
-Proof. apply musl_x_raises. Qed.
+  (has_nul ld = true -> run_loader le ld = LValueError /\ musllinux_tags_x lim exe le archs = []) /\
+  (has_nul ld = false -> le_all le = false -> ~ In ld (le_existing le) ->
+     run_loader le ld = LFileNotFound /\ musllinux_tags_x lim exe le archs = []).
+Proof. apply musl_x_unrunnable. Qed.
 Print Assumptions C16_musl_loader_exceptions.
-(* 21c. when nothing raises and the file stays below the limits, the real pipeline is the oracle model of 8. and 12. *)
+(* _musllinux.platform_tags never raises: for ANY executable bytes, file limits, loader list and loader output the result is either
+   empty or exactly the enumeration musllinux_<M>_<k>_<arch>, k = m .. 0 per architecture, of one version *)
+Theorem C16_musl_never_raises lim exe le archs :
+  musllinux_tags_x lim exe le archs = [] \/
+  exists M m, musllinux_tags_x lim exe le archs = map (render3 s_musllinux_) (musl_struct (Some (M, m)) archs).
+Proof. apply musl_x_total. Qed.
+Print Assumptions C16_musl_never_raises.
+(* 21c. when the loader runs and the file stays below the limits, the real pipeline is the oracle model of 8. and 12. *)
 Theorem C16_musl_agrees_with_oracle is32 plat e lim le archs :
   musl_loader_disk lim (m_exe e) = musl_loader (m_exe e) ->
-  (forall ld, musl_loader (m_exe e) = Some ld -> run_loader le ld = Done (le_stderr le)) ->
-  musllinux_tags_x lim (m_exe e) le archs = Done (musllinux_tags (m_exe e) (le_stderr le) archs) /\
-  linux_platforms_x is32 plat e lim le = Done (linux_platforms is32 plat e (le_stderr le)) /\
+  (forall ld, musl_loader (m_exe e) = Some ld -> run_loader le ld = LRan (le_stderr le)) ->
+  musllinux_tags_x lim (m_exe e) le archs = musllinux_tags (m_exe e) (le_stderr le) archs /\
+  linux_platforms_x is32 plat e lim le = linux_platforms is32 plat e (le_stderr le) /\
   musl_loader_disk mem_limits (m_exe e) = musl_loader (m_exe e).
 Proof. intros A R. split; [now apply musl_x_agrees|]. split; [now apply linux_x_agrees | apply musl_loader_mem]. Qed.
 Print Assumptions C16_musl_agrees_with_oracle.
@@ -430,8 +439,8 @@ Print Assumptions C16_repeated_arch_repeats.
 
 (* ------------------------------------------------------------------ memoised probes across calls (also C20) *)
 (* 24. _get_musl_version(executable) is memoised per executable path: every call answers what the FIRST call with that path probed;
-       if a path always gets the same uncached answer memoisation is invisible; different paths do not share an answer; an exception
-       is not memoised.  The battery step (Run/RunPlat.v p.probes: run_steps) threads this keyed memo and the one-cell glibc memo
+       if a path always gets the same uncached answer memoisation is invisible; different paths do not share an answer; a None
+       answer (also the one of a loader that could not be run) is memoised like any other.  The battery step (Run/RunPlat.v p.probes: run_steps) threads this keyed memo and the one-cell glibc memo
        of 18. through _manylinux.platform_tags / _musllinux.platform_tags: with empty memos a step is the uncached answer, and the
        glibc cell is consulted only when the ABI check passes. *)
 Theorem C16_keyed_probe_cache l :
@@ -439,9 +448,9 @@ Theorem C16_keyed_probe_cache l :
      exists v, nth_error (run_keyed [] l) i = Some v /\ first_for k (firstn (S i) l) = Some v) /\
   ((forall i j k a b, nth_error l i = Some (k, a) -> nth_error l j = Some (k, b) -> a = b) -> run_keyed [] l = map snd l) /\
   (forall k1 k2 a b, k1 <> k2 -> run_keyed [] [(k1, a); (k2, b); (k1, b)] = [a; b; a]) /\
-  (forall c k x, cache_get k c = None -> cached_musl c k (Raised x) = (c, Raised x)).
+  (forall c k, cache_get k c = None -> cached_musl c k None = ((k, None) :: c, None)).
 Proof.
-  split; [intros; eapply keyed_first_probe; eauto|]. split; [apply keyed_transparent|]. split; [apply keyed_not_shared | apply raised_not_cached].
+  split; [intros; eapply keyed_first_probe; eauto|]. split; [apply keyed_transparent|]. split; [apply keyed_not_shared | apply none_is_cached].
 Qed.
 Print Assumptions C16_keyed_probe_cache.
 Theorem C16_probe_steps archs s st :
@@ -459,19 +468,18 @@ Definition ex_nul_spec : elf_spec :=
   {| s_is64 := true; s_big := false; s_pad := [1]; s_type := 3; s_machine := 62; s_version := 1; s_entry := 4096; s_shoff := 0;
      s_flags := 0; s_ehsize := 64; s_phdrs := [[3; 4; 114; 114; 114; 9; 9; 1]]; s_payload := [120; 0; 109; 117; 115; 108; 0; 121; 0] |}.
 Definition ex_banner : list N := s_musl ++ [32; 108; 105; 98; 99; 10] ++ s_Version_ ++ [49; 46; 50; 46; 51; 10].
-Definition res_eqb (a : outcome (list (list N))) (b : outcome (list (list N))) : bool :=
-  match a, b with
-  | Done x, Done y => Nat.eqb (length x) (length y) && forallb (fun p => streq (fst p) (snd p)) (combine x y)
-  | Raised ExValueError, Raised ExValueError => true | Raised ExFileNotFound, Raised ExFileNotFound => true | _, _ => false end.
+Definition res_eqb (x y : list (list N)) : bool := Nat.eqb (length x) (length y) && forallb (fun p => streq (fst p) (snd p)) (combine x y).
 Definition C16_round2_check : bool :=
   let lim := {| seek_max := 281474976710656; read_max := 281474976710656 |} in
   let le_all_ok := {| le_all := true; le_existing := []; le_stderr := ex_banner |} in
   let le_none := {| le_all := false; le_existing := []; le_stderr := ex_banner |} in
-  (* the good image: three tags musllinux_1_2 .. 1_0; the loader missing: FileNotFoundError; a NUL inside the path: ValueError *)
+  (* the good image: three tags musllinux_1_2 .. 1_0; the loader missing, or a NUL inside the path: no tags *)
   res_eqb (musllinux_tags_x lim (Some (encode ex_spec)) le_all_ok [s_x86_64])
-          (Done (map (render3 s_musllinux_) [(1, 2, s_x86_64); (1, 1, s_x86_64); (1, 0, s_x86_64)]%nat)) &&
-  res_eqb (musllinux_tags_x lim (Some (encode ex_spec)) le_none [s_x86_64]) (Raised ExFileNotFound) &&
-  res_eqb (musllinux_tags_x lim (Some (encode ex_nul_spec)) le_all_ok [s_x86_64]) (Raised ExValueError) &&
+          (map (render3 s_musllinux_) [(1, 2, s_x86_64); (1, 1, s_x86_64); (1, 0, s_x86_64)]%nat) &&
+  res_eqb (musllinux_tags_x lim (Some (encode ex_spec)) le_none [s_x86_64]) [] &&
+  match run_loader le_none (firstn 24 ex_payload) with LFileNotFound => true | _ => false end &&
+  res_eqb (musllinux_tags_x lim (Some (encode ex_nul_spec)) le_all_ok [s_x86_64]) [] &&
+  match musl_loader_disk lim (Some (encode ex_nul_spec)) with Some ld => has_nul ld | None => false end &&
   (* the keyed memo: path A probed first with 1.2, later the same path with another loader output still answers 1.2; path B is separate *)
   match run_keyed [] [([65], Some (1, 2)%nat); ([66], None); ([65], Some (1, 5)%nat)] with
   | [Some (1, 2)%nat; None; Some (1, 2)%nat] => true | _ => false end &&
